@@ -386,12 +386,23 @@ def check(prop, tier, seed):
     eng_events = 0
     skipped = 0
     case_by_key = {}
-    nchunks = (len(cases) + chunk - 1) // chunk
+    # chunk boundaries: schedules (short cases, few events each) go in larger chunks of their own
+    bounds = []
+    start = 0
+    while start < len(cases):
+        sched = cases[start].get("run") == "sched"
+        lim = max(chunk, 700) if sched else chunk
+        end = start
+        while end < len(cases) and end - start < lim and (cases[end].get("run") == "sched") == sched:
+            end += 1
+        bounds.append((start, end))
+        start = end
+    nchunks = len(bounds)
     explain = bool({"den", "oracle", "tri_oracle", "tri_both"} & set(spec["rules"]))
 
     def do_chunk(ci):
         """Stages B and C for one chunk of cases (chunks are independent: own files, own TLC)."""
-        part = cases[ci * chunk:(ci + 1) * chunk]
+        part = cases[bounds[ci][0]:bounds[ci][1]]
         cpath = os.path.join(wd, "cases-%03d.ndjson" % ci)
         tpath = os.path.join(wd, "trace-%03d.ndjson" % ci)
         write_lines(cpath, part)
@@ -407,19 +418,23 @@ def check(prop, tier, seed):
         if spec.get("second_process"):
             # C12: the same cases in ANOTHER process, in the opposite order (so that every case has a
             # different history behind it); its events join the cases of the first process
+            # (schedules of MC_Life are one-process behaviours by construction: not repeated here)
             cpath2 = os.path.join(wd, "cases-rev-%03d.ndjson" % ci)
             rev = []
-            for c in reversed(part):
+            idx2 = [i for i, c in enumerate(part) if c.get("run") != "sched"]
+            for c in reversed([part[i] for i in idx2]):
                 c2 = dict(c)
                 c2["plan"] = dict(c.get("plan", {}))
                 c2["plan"]["again"] = False
                 rev.append(c2)
             write_lines(cpath2, rev)
             tpath2 = os.path.join(wd, "trace-rev-%03d.ndjson" % ci)
-            p, dt2 = run([tvh, "run", cpath2, tpath2], cwd=wd, timeout=1800)
+        if spec.get("second_process") and rev:
+            # ... and with a log subscriber listening at DEBUG (ambient state a verdict must not depend on)
+            p, dt2 = run([tvh, "run", cpath2, tpath2], cwd=wd, timeout=1800, env={"VERIF_TRACE": "1"})
             if p.returncode != 0:
                 raise ToolError("tvh (second process) run failed: %s" % p.stdout.decode(errors="replace")[-3000:])
-            merge_ic(tpath, tpath2, tag="proc2", load_ev="load2", reverse=True)
+            merge_ic(tpath, tpath2, tag="proc2", load_ev="load2", reverse=True, only=idx2)
         n_ev = n_eng = n_skip = 0
         with open(tpath) as f:
             eng_case = False
@@ -545,7 +560,7 @@ def check(prop, tier, seed):
     return 1 if violations else 0
 
 
-def merge_ic(tpath, tpath2, tag="ic", load_ev="icload", reverse=False):
+def merge_ic(tpath, tpath2, tag="ic", load_ev="icload", reverse=False, only=None):
     """C15: append to each case of the default build's trace the events the ignore_case build
     recorded for the same case, as further objects of that case (obj ids shifted)."""
     def chunks(path):
@@ -563,11 +578,16 @@ def merge_ic(tpath, tpath2, tag="ic", load_ev="icload", reverse=False):
     a, b = chunks(tpath), chunks(tpath2)
     if reverse:
         b = list(reversed(b))
+    if only is not None and len(b) == len(only):
+        full = [[None] for _ in a]
+        for i, cb in zip(only, b):
+            full[i] = cb
+        b = full
     if len(a) != len(b):
         raise ToolError("the two builds recorded a different number of cases")
     with open(tpath, "w") as f:
         for ca, cb in zip(a, b):
-            nobj = sum(1 for e in ca if e.get("ev") in ("opt", "alt", "reload", "reopt"))
+            nobj = sum(1 for e in ca if e.get("ev") in ("opt", "alt", "reload", "reopt", "edit"))
             for e in ca:
                 f.write(json.dumps(e, separators=(",", ":")) + "\n")
             for e in cb[1:]:
